@@ -50,7 +50,9 @@ def work(job):
     res = {"name": prog["name"], "status": "ok", "histories": 0, "viol": [], "corr": [], "term_seen": {}, "states": 0}
     wd = os.path.join(wd_root, str(os.getpid()))
     shutil.rmtree(wd, ignore_errors=True)
-    base = ["-O1"] + prog["args"] + ["-findirect-start-ptr"]
+    # (yields land on consuming transitions at -O3: the early-advance template is live there)
+    lvl = "-O3" if "-fyield-support" in prog["args"] and (rng.random() < 0.5 or prog.get("origin") == "corpus") else "-O1"
+    base = [lvl] + prog["args"] + ["-findirect-start-ptr"]
     case = rtdiff.Case(prog, base, os.path.join(wd, "a"))
     if not case.ok:
         res["status"] = case.why
